@@ -823,7 +823,7 @@ def c19(tier, seed):
 
 
 def c09(tier, seed):
-    return stream_obs(['h_sgetb32', 'h_sgetb64', 'h_sgetble32', 'h_sgetbs']) + crc_obs(tier) + state_obs(tier) + crc_record_obs() + mapguard_obs() + runguard_obs()
+    return stream_obs(['h_sgetb32', 'h_sgetb64', 'h_sgetble32', 'h_sgetbs']) + crc_obs(tier) + state_obs(tier) + crc_record_obs() + mapguard_obs() + runguard_obs() + ssync_obs()
 
 
 NSEC_ENC = dict(region='nsec_enc', file='cmdline/state.c', begin='/* encode STAT_NSEC_INVALID as 0 */', end='sputb64(inode, f);', end_first_after=True, max_lines=8, expect_loops=0,
@@ -876,6 +876,18 @@ def runguard_obs():
                unwind=4, small_path=True, timeout=600, mem=6, cost=2,
                functions=["state_read_content: region '%s' record, run-length guard (cmdline/state.c, extracted mechanically)" % l],
                note='every 32-bit position, count and array / file size') for l in 'ihf']
+
+
+WRITE_FLUSH = dict(region='write_flush', file='cmdline/state.c', begin='retval = state_write_thread(context);', end='crc = context->crc;', end_first_after=True, max_lines=40, expect_loops=0,
+                   proto='static void region_write_flush(STREAM *f, void *retval)')
+
+
+def ssync_obs():
+    return [Ob('state.write.flush_sequence.region', 'harness/h_ssync.c', 'h_write_flush', inject=[WRITE_FLUSH], unwind=6, small_path=True, timeout=600, mem=6, cost=2,
+               functions=['state_write_content: region after the writer returned, "flush -> fsync -> close" (cmdline/state.c, extracted mechanically; single-stream build)'],
+               note='writer failed or not, every outcome of sflush / ssync / sclose'),
+            Ob('stream.ssync', 'harness/h_ssync.c', 'h_ssync', inject=[WRITE_FLUSH], unwind=6, small_path=True, timeout=600, mem=6, cost=2, kind='bounded', bound='at most 4 content copies in the stream',
+               functions=['ssync (cmdline/stream.c)'], note='1..4 handles, every outcome of each fsync')]
 
 
 def mapguard_obs():
